@@ -283,6 +283,14 @@ struct ArduinoJsonVerifInspector {
     auto& p = pl.pools_[pl.count_ - 1];
     return p.usage_ >= p.capacity_;
   }
+  static size_t pool_count(ArduinoJson::JsonDocument& doc) { return resources(doc)->variantPools_.count_; }
+  // at the moment a new pool's slots are requested: the previous last pool must be full
+  static bool previous_pool_full(ArduinoJson::JsonDocument& doc) {
+    auto& pl = resources(doc)->variantPools_;
+    if (pl.count_ < 2) return true;
+    auto& p = pl.pools_[pl.count_ - 2];
+    return p.usage_ >= p.capacity_;
+  }
   static size_t slot_size() { return RM::slotSize; }
   static size_t max_pools() { return (size_t)NUL / ARDUINOJSON_POOL_CAPACITY + ((size_t)NUL % ARDUINOJSON_POOL_CAPACITY ? 1 : 0); }
 };
